@@ -230,7 +230,16 @@ pub enum Op {
         conv: Conv,
     },
     Unlink { holder: Holder, slot: u8, route: Route },
-    LinkWeak { holder: Holder, slot: u8, child: Id, route: Route },
+    LinkWeak {
+        holder: Holder,
+        slot: u8,
+        child: Id,
+        route: Route,
+        /// the weak pointer is stored in a converted representation (erased, unsized, thin, raw
+        /// round trip, allocation kind): what upgrade / resurrect give back is converted too
+        #[serde(default)]
+        conv: Conv,
+    },
     UnlinkWeak { holder: Holder, slot: u8, route: Route },
     Upgrade { holder: Holder, slot: u8, then: Then },
     IsDropped { holder: Holder, slot: u8 },
@@ -250,6 +259,9 @@ pub enum Op {
     /// convert a pointer through a chain of representations and back, checking identity and
     /// contents at every step; nothing is stored
     Convert { obj: Id, chain: Vec<Conv> },
+    /// a DynamicRoot handle cloned or dropped by client code inside the callback (of its own
+    /// arena or of another one)
+    HandleIn { h: Hid, op: HandleOp },
     /// ZstCache::alloc / alloc_static of a zero-sized (align 2^a) or an ordinary value
     Zst { id: Id, a: u8, sized: bool, via_static: bool },
 }
@@ -313,6 +325,11 @@ impl PacingSpec {
             free_factor: self.free,
         }
     }
+    /// What a freshly made context starts with.
+    pub fn default_spec() -> PacingSpec {
+        let d = gc_arena::metrics::Pacing::DEFAULT;
+        PacingSpec { sleep_factor: d.sleep_factor, min_sleep: d.min_sleep as u32, mark: d.mark_factor, trace: d.trace_factor, keep: d.keep_factor, drop: d.drop_factor, free: d.free_factor }
+    }
     pub fn rho(self) -> f64 {
         let a = self.mark + self.trace + self.keep;
         let b = self.drop + self.free;
@@ -361,6 +378,9 @@ pub enum Event {
         static_root: bool,
     },
     DropArena { a: Aid },
+    /// `arena::rootless_mutate`: a context of its own that lives for one callback; `a` is a fresh
+    /// arena index used for nothing else, `root_set` reserves two ids as a bare root does
+    Rootless { a: Aid, root_set: Id, ops: Vec<Op> },
 }
 
 #[derive(Serialize, Deserialize, Clone, Copy, Debug, PartialEq, Eq)]
